@@ -68,6 +68,7 @@ type simNode struct {
 	subs   []*simSub
 	relays map[string][]RelayCancelFunc
 
+	topicOpts func(name string) []TopicOpt
 	onWire  func(fp *fakePeer, o *wireObs)
 	onRaw   func(r *rawRec)
 	created time.Duration
@@ -225,7 +226,11 @@ func (n *simNode) topic(name string) (*Topic, error) {
 	if t != nil {
 		return t, nil
 	}
-	t, err := n.ps.Join(name)
+	var topts []TopicOpt
+	if n.topicOpts != nil {
+		topts = n.topicOpts(name)
+	}
+	t, err := n.ps.Join(name, topts...)
 	if err != nil {
 		return nil, err
 	}
